@@ -132,7 +132,9 @@ static rc::Gen<std::vector<uint64_t>> gen_par(int routine)
         uint64_t orderseed = *rc::gen::weightedOneOf<uint64_t>({{1, rc::gen::just<uint64_t>(0)}, {1, rc::gen::just<uint64_t>(1)}, {6, g::uni64()}});
         std::vector<uint64_t> v{(uint64_t)routine, (uint64_t)team, orderseed};
         std::vector<uint64_t> sub;
-        if (routine == 0) { sub = *nt::gen_call(-1, 9, 5); if (sub[0] > 2) sub[0] = sub[0] % 3; if (sub[0] == nt::K_EXT && sub[7] == 2) sub[7] = 0; if (sub[0] == nt::K_EXT) sub[3] = std::max(sub[3], sub[2]); if (sub[0] == nt::K_EXT && sub[4] == 0) sub[4] = 1; }
+        if (routine == 0) { sub = *nt::gen_call(-1, 9, 5);
+            /* wide matrices: keep the domain small (TSan cost) */
+            if (sub[4] >= 64 && sub[2] > 4 && sub[2] != nt::SIZE0) { sub[3] -= (sub[2] - 4); sub[2] = 4; if (sub[1] < sub[2]) sub[1] = sub[2]; } if (sub[0] > 2) sub[0] = sub[0] % 3; if (sub[0] == nt::K_EXT && sub[7] == 2) sub[7] = 0; if (sub[0] == nt::K_EXT) sub[3] = std::max(sub[3], sub[2]); if (sub[0] == nt::K_EXT && sub[4] == 0) sub[4] = 1; }
         else if (routine == 1) { sub = {(uint64_t)*g::irange(0, ps::NVAR - 1), (uint64_t)*g::irange(0, 6), *g::range(0, 20), (uint64_t)*g::irange(1, 3), *g::range(1, 24), 0, *g::uni64()}; }
         else { sub = {(uint64_t)*g::irange(0, 1), *rc::gen::weightedOneOf<uint64_t>({{3, g::range(0, 70)}, {2, g::range(0, 5000)}}), 0, *g::uni64()}; }
         v.insert(v.end(), sub.begin(), sub.end());
